@@ -149,6 +149,7 @@ def softmax(
     dtype: Optional[torch.dtype] = None,
     constraint: Optional[str] = "to_output_scale",
     mult: float = 1.0,
+    _stacklevel: int = 3,  # accepted for compatibility with F.softmax; unused
 ) -> Tensor:
     dim_size = input.shape[dim]
     # Empirical model
